@@ -565,6 +565,9 @@ pub fn parent(plan: &Plan, a: &ParentArgs) -> i32 {
                 ])
                 .env("RUST_BACKTRACE", "0")
                 .stdin(std::process::Stdio::null())
+                // a sanitizer flavour writes its report when it ends a worker; the parent reproduces the case in a
+                // fresh process and quotes the report from there
+                .stderr(if *fl == "tsan" { std::process::Stdio::null() } else { std::process::Stdio::inherit() })
                 .spawn()
                 .expect("spawn worker");
             children.push((i, out, ch));
@@ -653,7 +656,18 @@ pub fn parent(plan: &Plan, a: &ParentArgs) -> i32 {
                                     format!("shrunk from {} to {} op records in {} replay attempts (delta debugging, oracle: same termination)", _c.ops.len(), small.ops.len(), attempts),
                                 ];
                                 for l in last_err.into_iter().rev() {
-                                    msgs.push(format!("stderr: {}", l));
+                                    if !l.trim().is_empty() && !l.starts_with("=====") {
+                                        msgs.push(format!("stderr: {}", l));
+                                    }
+                                }
+                                // sanitizer reports: the frames inside the library
+                                let mut seen_frames: Vec<String> = vec![];
+                                for l in t.stderr.lines().filter(|l| l.contains("triomphe::") || l.trim_start().starts_with("Write of size") || l.trim_start().starts_with("Read of size") || l.trim_start().starts_with("Previous ") || l.trim_start().starts_with("Atomic ")) {
+                                    let l = l.trim().split(" (tv").next().unwrap_or("").to_string();
+                                    if !seen_frames.contains(&l) && seen_frames.len() < 10 {
+                                        msgs.push(format!("report: {}", l));
+                                        seen_frames.push(l);
+                                    }
                                 }
                                 let path = write_replay(&a.property, a.tier, fl, &engine, &small.to_hex(), "crash", &msgs, &trace);
                                 if path != tmp_path {
